@@ -165,6 +165,10 @@ fn gen_fees(rng: &mut Rng) -> [String; 3] {
         }
     };
     let mut f = [pick(rng), pick(rng), pick(rng)];
+    if rng.chance(1, 12) {
+        // no fees at all: rounding is the only thing between a there-and-back swap and a profit
+        f = [0, 0, 0];
+    }
     if rng.chance(1, 25) {
         // total just below 100%
         let a = rng.range128(0, E18 - 1);
